@@ -14,6 +14,7 @@ import Driver.OpsExec
 import Driver.OpsScan
 import Driver.OpsSignals
 import Driver.OpsLine
+import Driver.OpsResolver
 import Driver.OpsMatch
 import Driver.OpsLock
 /-
@@ -39,6 +40,7 @@ def handlers : List (List String → Option String) :=
   , OpsScan.dispatch
   , OpsSignals.dispatch
   , OpsLine.dispatch
+  , OpsResolver.dispatch
   , OpsMatch.dispatch
   , OpsLock.dispatch
   ]
